@@ -368,7 +368,11 @@ func c08Shapes(c *core.Ctx, acc, rej *int64) {
 	for _, dsse := range []bool{false, true} {
 		for _, runDir := range []bool{false, true} {
 			for _, sc := range []string{"one-step-sublayout/clean", "one-step-sublayout/forbidden-product", "two-step-sublayout/forbidden-product",
-				"two-sublayouts-of-one-functionary/clean", "two-sublayouts-of-one-functionary/first-has-forbidden-product", "two-sublayouts-of-one-functionary/second-has-forbidden-product"} {
+				"two-sublayouts-of-one-functionary/clean", "two-sublayouts-of-one-functionary/first-has-forbidden-product", "two-sublayouts-of-one-functionary/second-has-forbidden-product",
+				// the summary ends with what the LAST step reports, also when that is nothing
+				"last-step-reports-no-products/clean", "last-step-reports-no-products/parent-requires-a-product-of-an-earlier-step",
+				// the directory with the sublayout's links is reached through a symbolic link (as the root's link directory may be)
+				"sublayout-directory-is-a-symlink/clean", "sublayout-directory-is-a-symlink/forbidden-product"} {
 				id := fmt.Sprintf("shape/%s/dsse=%v/rundir=%v", sc, dsse, runDir)
 				if !c.Want(id) {
 					continue
@@ -383,6 +387,27 @@ func c08Shapes(c *core.Ctx, acc, rej *int64) {
 				wantOK := strings.HasSuffix(sc, "/clean")
 				noEvil := [][]string{{"DISALLOW", "evil.bin"}, {"ALLOW", "*"}}
 				switch {
+				case strings.HasPrefix(sc, "last-step-reports-no-products"):
+					err = writeSub(linkDir, "delegated", dsse, []step{{"compile", F, map[string]string{"app.bin": "app\n"}}, {"sign-off", E, map[string]string{}}})
+					rules := [][]string{{"DISALLOW", "*"}} // nothing is reported, nothing is disallowed
+					if !wantOK {
+						rules = [][]string{{"REQUIRE", "app.bin"}, {"ALLOW", "*"}}
+					}
+					layout = gen.NewLayout([]intoto.Step{gen.Step("delegated", 1, gen.KeyIDs(D), allow, rules)}, nil, gen.KeyMap(D))
+				case strings.HasPrefix(sc, "sublayout-directory-is-a-symlink"):
+					prods := map[string]string{"app.bin": "app\n"}
+					if !wantOK {
+						prods["evil.bin"] = "evil\n"
+					}
+					if err = writeSub(linkDir, "delegated", dsse, []step{{"first", F, map[string]string{"tmp": "t\n"}}, {"second", E, prods}}); err == nil {
+						subDir := filepath.Join(linkDir, fmt.Sprintf(intoto.SublayoutLinkDirFormat, "delegated", D.Pub.KeyID))
+						elsewhere := filepath.Join(root, "store", "links-of-the-sublayout")
+						mkdirs(filepath.Dir(elsewhere))
+						if err = os.Rename(subDir, elsewhere); err == nil {
+							err = os.Symlink(elsewhere, subDir)
+						}
+					}
+					layout = gen.NewLayout([]intoto.Step{gen.Step("delegated", 1, gen.KeyIDs(D), allow, [][]string{{"REQUIRE", "app.bin"}, {"DISALLOW", "evil.bin"}, {"ALLOW", "*"}})}, nil, gen.KeyMap(D))
 				case strings.HasPrefix(sc, "one-step-sublayout"), strings.HasPrefix(sc, "two-step-sublayout"):
 					prods := map[string]string{"app.bin": "app\n"}
 					if !wantOK {
@@ -430,7 +455,7 @@ func c08Shapes(c *core.Ctx, acc, rej *int64) {
 				case wantOK && !obs.Accepted():
 					c.Violation("correct nesting rejected ("+sc+"): "+core.MsgClass(stripDirs(errStr(obs.Err), root)), id, detail)
 				case !wantOK && obs.Accepted():
-					c.Violation("the parent's rules were not evaluated against the summary of the step's own sublayout: forbidden product accepted ("+sc+")", id, detail)
+					c.Violation("the parent's rules were not evaluated against the summary of the step's own sublayout: accepted ("+sc+")", id, detail)
 				case wantOK:
 					*acc++
 				default:
@@ -457,7 +482,7 @@ func init() {
 	core.Register(&core.Property{
 		ID:    "C08",
 		Level: "exploration",
-		Rule: "nestings of 2 and 3 (thorough: also 4) layouts built bottom-up (each layout: steps prep / sub / final, step sub delegated to a sublayout signed by the functionary's key, links in <step>.<keyid8>/, one inspection with a marker per level); one defect from {sublayout signed by a wrong key, expired ten minutes ago, rule violation, failing inspection command, violated inspection rule, threshold not met, missing link, link signed by an unauthorized key, tampered link} at every level x every step; parent rules of the 'true summary' flavour (must hold) and of the 'inner artifact' flavour (must fail); a sublayout offered by an unauthorized functionary (a stranger, the functionary of the earlier step, the functionary of the later step) next to honest evidence (must not be followed: no sublayout_enter, no marker); threshold-2 step with one plain link + one sublayout (agreeing / disagreeing / the plain link reporting no products at all); delegated steps named sub[12], s?b*, sub\\x (sound and with a missing link); threshold-1 step with an honest plain link plus a (sound / expired / incomplete) sublayout from a second authorized functionary; threshold-2 step with the same sublayout from two functionaries, a link missing in one directory only (repeated for map order); the innermost layout re-defining the key id of the root's prep functionary with other key material (its evidence counts, a link signed with the root's material does not); a sublayout whose summary reports its product under sha512 only while the parent's evidence uses sha256 (rejected at the parent); sublayouts with one step only, and one functionary carrying out two steps of a layout as sublayouts (clean / with a product the parent forbids in the one or in the other); x 2 wrappers x 2 entry points. Oracle: ground truth by construction + markers + sublayout_enter events + trace automaton. " +
+		Rule: "nestings of 2 and 3 (thorough: also 4) layouts built bottom-up (each layout: steps prep / sub / final, step sub delegated to a sublayout signed by the functionary's key, links in <step>.<keyid8>/, one inspection with a marker per level); one defect from {sublayout signed by a wrong key, expired ten minutes ago, rule violation, failing inspection command, violated inspection rule, threshold not met, missing link, link signed by an unauthorized key, tampered link} at every level x every step; parent rules of the 'true summary' flavour (must hold) and of the 'inner artifact' flavour (must fail); a sublayout offered by an unauthorized functionary (a stranger, the functionary of the earlier step, the functionary of the later step) next to honest evidence (must not be followed: no sublayout_enter, no marker); threshold-2 step with one plain link + one sublayout (agreeing / disagreeing / the plain link reporting no products at all); delegated steps named sub[12], s?b*, sub\\x (sound and with a missing link); threshold-1 step with an honest plain link plus a (sound / expired / incomplete) sublayout from a second authorized functionary; threshold-2 step with the same sublayout from two functionaries, a link missing in one directory only (repeated for map order); the innermost layout re-defining the key id of the root's prep functionary with other key material (its evidence counts, a link signed with the root's material does not); a sublayout whose summary reports its product under sha512 only while the parent's evidence uses sha256 (rejected at the parent); sublayouts with one step only, and one functionary carrying out two steps of a layout as sublayouts (clean / with a product the parent forbids in the one or in the other); a sublayout whose last step reports no products while an earlier one does (parent: DISALLOW * accepted, REQUIRE of the earlier step's product rejected); a sublayout whose link directory is reached through a symbolic link (clean / forbidden product); x 2 wrappers x 2 entry points. Oracle: ground truth by construction + markers + sublayout_enter events + trace automaton. " +
 			"non-trivial = at least one sublayout entered or deliberately not entered; distinct = (depth, defect, level, step, flavour, special, wrapper, entry point)",
 		Assumptions: []string{"sublayouts are signed with keys (the library looks the key up in the parent's keys section); certificate-authorized sublayout signers are not exercised"},
 		Workers:     func(string) int { return 16 },
